@@ -34,6 +34,7 @@ pub struct CaseStats {
     pub eintr_writes: u64,
     pub short_writes: u64,
     pub clock_advances: u64,
+    pub clock_advanced_ms: u64,
     pub chunk_inside_utf8: u64,
     pub chunk_inside_line: u64,
     pub p_checks: u64,
@@ -184,6 +185,7 @@ pub fn check_case(case: &Case) -> (Vec<Violation>, CaseStats) {
     stats.eintr_writes += b.shared.eintr_writes as u64;
     stats.short_writes += b.shared.short_writes as u64;
     stats.clock_advances += b.shared.clock_advances as u64;
+    stats.clock_advanced_ms += b.shared.clock_advanced_ms;
     if !matches!(b.result, Ok(Ok(()))) {
         out.push(Violation::new("D-delivery-independence", "D:result-differs", format!("delivery schedule {:?} (pauses {:?} ms) / consumer plan {:?} ends differently: {:?}", case.rschedule, case.rdelays_ms, case.wplan, b.result.as_ref().map(|r| r.as_ref().map_err(|e| e.to_string())))));
         return (out, stats);
@@ -330,6 +332,7 @@ pub fn merge_stats(into: &mut BTreeMap<String, u64>, s: &CaseStats) {
     add("fault_fired.write_eintr", s.eintr_writes);
     add("fault_fired.short_write", s.short_writes);
     add("fault_fired.producer_pause_clock_advance", s.clock_advances);
+    add("simulated_time_covered_ms", s.clock_advanced_ms);
     add("chunk_boundary_inside_utf8_sequence", s.chunk_inside_utf8);
     add("chunk_boundary_inside_line", s.chunk_inside_line);
     add("prefix_oracle_checks", s.p_checks);
